@@ -365,9 +365,15 @@ def _run_case(spec):
                 # multiset comparison in the complex plane (greedy matching)
                 rem = list(ref)
                 ok = True
+                # eigenvalues of a (nearly) defective matrix move by ~ eps^(1/p) (p = size of the Jordan block <= largest charge block)
+                try:
+                    cond_V = np.linalg.cond(np.linalg.eig(dh)[1])
+                except np.linalg.LinAlgError:
+                    cond_V = np.inf
+                tol_eig = 1e-6 * scale if cond_V < 1e6 else 2e-3 * scale
                 for w in W:
                     j = int(np.argmin([abs(w - r) for r in rem]))
-                    if abs(w - rem[j]) > 1e-6 * scale:
+                    if abs(w - rem[j]) > tol_eig:
                         ok = False
                         break
                     rem.pop(j)
